@@ -396,8 +396,18 @@ def set_path(v, path, new):
     raise Undecided("set_path on %r" % (v,))
 
 
+_merge_fail = [0]
+
+
 def merge_val(c, a, b):
     """ite(c, a, b); c is an exact bit function or None (join)"""
+    r = _merge_val(c, a, b)
+    if isinstance(r, TopV) and not (isinstance(a, TopV) or isinstance(b, TopV)):
+        _merge_fail[0] += 1
+    return r
+
+
+def _merge_val(c, a, b):
     if a is b:
         return a
     if isinstance(a, W) and isinstance(b, W) and a.width == b.width:
@@ -1099,8 +1109,14 @@ class Interp(object):
             return results
         conts = []
         if ck == "bit" and len(stops_t) == 1 and len(stops_f) == 1:
+            before = _merge_fail[0]
             merged = merge_states(d.bits[0], stops_t[0].state, stops_f[0].state)
-            conts.append((merged, pc))
+            if _merge_fail[0] != before:
+                # shapes differ (e.g. enum variants): keep the two paths apart instead of joining to top
+                for o in stops_t + stops_f:
+                    conts.append((o.state, o.pc))
+            else:
+                conts.append((merged, pc))
         elif ck == "top" and len(stops_t) == 1 and len(stops_f) == 1 and self.join_on_top:
             merged = merge_states(None, stops_t[0].state, stops_f[0].state)
             conts.append((merged, pc))
